@@ -173,6 +173,15 @@ def pair_differ(rec, rng, cid):
         p["contact_point"].value = float(rng.uniform(-3e-7, 3e-7))
         name = list(p)[int(rng.integers(len(p)))]
         attr = ["value", "min", "max", "vary", "expr"][int(rng.integers(5))]
+        if rng.random() < .25:
+            # the parameter whose attribute changes is constrained by an
+            # expression (its bounds clip the expression value: they matter)
+            name = "nu" if "nu" in p else list(p)[0]
+            attr = ["min", "max", "expr"][int(rng.integers(3))]
+            other = "E" if "E" in p else [n for n in p if n != name][0]
+            p[name].set(expr="%s/%r" % (other, 6000.0))
+            rec.event("must-differ pairs on an expression-constrained "
+                      "parameter")
         q = copy.deepcopy(p)
         par = q[name]
         ref = abs(par.value) if par.value else 1e-7
